@@ -2,7 +2,7 @@
     Statements only. *)
 From Tibc Require Import Base.Bytes Base.FMap Host.Keys Host.KeysFacts Routing.Rules
   Packet.Types Packet.Keeper Packet.KeeperFacts Packet.Invariants Packet.Relay
-  Net.Net Net.Explained Net.NetInv.
+  Net.Net Net.Explained Net.NetInv Packet.AckOnce.
 From Tibc Require Import Harness.Net Properties.Example.
 
 (** authenticity, network level: an accepted acknowledgement was recorded, for
@@ -96,6 +96,58 @@ Theorem C03_relay_passthrough_unchanged :
        verify cl from h pf (ack_key (p_src p) (p_dst p) (p_seq p)) (H a) = true.
 Proof. exact relay_ack_passthrough. Qed.
 Print Assumptions C03_relay_passthrough_unchanged.
+
+(** never overwritten: in every state a chain can reach from an empty packet
+    store (any operations, any packets, proofs and heights; the chain has a
+    non-empty '/'-free name and no light client of itself), the pass-through write
+    of an acknowledgement on a relay chain finds the key empty.  Together with
+    C03_ack_written_once_nonempty (the receive path checks the key itself) every
+    acknowledgement key is written at most once until it is cleaned. *)
+Theorem C03_relay_ack_never_overwrites :
+  forall (A : Type) (H : bytes -> bytes) (has_route : bytes -> bool)
+         (on_recv : A -> packet -> option (A * option bytes))
+         (on_ack : A -> packet -> bytes -> option A),
+    (forall x, H x <> []) ->
+    forall (c0 : chain A) (ops : list (op A)) (p : packet) (a : bytes) (pf : proof) (h : N)
+           (c' : chain A) (ev : list event),
+      c_kv A c0 = [] -> NoSelf A c0 -> c_name A c0 <> [] -> noslash (c_name A c0) ->
+      Forall (op_wf (A:=A)) ops -> Forall (op_noself A (c_name A c0)) ops -> wfp p ->
+      ack_packet A H (run A H has_route on_recv on_ack c0 ops) p a pf h = Some (c', ev) ->
+      p_relay p = c_name A (run A H has_route on_recv on_ack c0 ops) ->
+      ack_at A (run A H has_route on_recv on_ack c0 ops) (p_src p) (p_dst p) (p_seq p) = None.
+Proof. exact relay_ack_never_overwrites. Qed.
+Print Assumptions C03_relay_ack_never_overwrites.
+
+(** the invariant behind it, for packets of other chains, in every reachable state:
+    a stored acknowledgement excludes a stored commitment, and both imply a
+    receipt (or a clean point that has passed them) *)
+Theorem C03_ack_excludes_commitment :
+  forall (A : Type) (H : bytes -> bytes) (has_route : bytes -> bool)
+         (on_recv : A -> packet -> option (A * option bytes))
+         (on_ack : A -> packet -> bytes -> option A),
+    (forall x, H x <> []) ->
+    forall (c0 : chain A) (ops : list (op A)) (s d : bytes) (n : N),
+      c_kv A c0 = [] -> NoSelf A c0 -> c_name A c0 <> [] -> noslash (c_name A c0) ->
+      Forall (op_wf (A:=A)) ops -> Forall (op_noself A (c_name A c0)) ops ->
+      wfk s d n -> s <> c_name A c0 ->
+      let c := run A H has_route on_recv on_ack c0 ops in
+      (commit_at A c s d n <> None -> receipt_at A c s d n <> None) /\
+      (ack_at A c s d n <> None -> receipt_at A c s d n <> None \/ n <= clean_seq A c s d) /\
+      (ack_at A c s d n <> None -> commit_at A c s d n = None).
+Proof.
+  intros A H hr orc oa NE c0 ops s d n KV NS NN NSL FW FN W SN c.
+  assert (G : Good A (run A H hr orc oa c0 ops)).
+  { apply run_Good; [exact NE|exact FW|exact FN|].
+    exact (conj NS (conj NN (conj NSL (InvA_empty A c0 KV)))). }
+  destruct G as (_ & _ & _ & I). apply I; [exact W|].
+  assert (NM : forall ops c1, c_name A (run A H hr orc oa c1 ops) = c_name A c1).
+  { clear. induction ops as [|o ops IH]; intros c1; [reflexivity|].
+    unfold Keeper.run. cbn [fold_left]. fold (run A H hr orc oa (fst (step A H hr orc oa c1 o)) ops).
+    rewrite IH. unfold Keeper.step. destruct (exec A H hr orc oa c1 o) as [[c2 ev]|] eqn:E; cbn [fst]; [|reflexivity].
+    eapply exec_name; exact E. }
+  rewrite NM. exact SN.
+Qed.
+Print Assumptions C03_ack_excludes_commitment.
 
 Example C03_nonvacuous :
   let ack_ops := [OAck xp1 mock_ack (PGenuine nameB (ack_key nameA nameB 1)) 3;
